@@ -241,9 +241,16 @@ def run(ctx) -> None:
     shapes.check_passthrough(ctx, "R4", "cli._update", "v1rewrite.rewrite_files", {"file_patterns": "cfg.file_patterns"})
     ipp = prog.function("rewrite.iter_path_patterns_items")
     ctx.visit(ipp.fq)
-    src = unparse(ipp.node)
-    ok = f"for filepath_str, patterns in {ipp.params[0]}.items()" in src and "pl.Path(filepath_str)" in src
-    ctx.check("R4", ok, "iter_path_patterns_items yields Path(<configured path>) for each configured file", "rewrite.iter_path_patterns_items: yielded path is not the configured path", "", loc=ipp.loc())
+    lps = [n for n in walk_no_nested(ipp.node) if isinstance(n, ast.For)]
+    ok = len(lps) == 1 and unparse(lps[0].iter) == f"{ipp.params[0]}.items()" and isinstance(lps[0].target, ast.Tuple) and len(lps[0].target.elts) == 2
+    if ok:
+        kvar, pvar = unparse(lps[0].target.elts[0]), unparse(lps[0].target.elts[1])
+        ys = [y for y in ast.walk(ipp.node) if isinstance(y, ast.Yield)]
+        ok = len(ys) == 1 and isinstance(ys[0].value, ast.Tuple) and len(ys[0].value.elts) == 2 and unparse(ys[0].value.elts[1]) == pvar
+        if ok:
+            pth = shapes.resolve_alias(ipp, ys[0].value.elts[0])
+            ok = isinstance(pth, ast.Call) and unparse(pth.func).endswith("Path") and [unparse(a) for a in pth.args] == [kvar]
+    ctx.check("R4", ok, "iter_path_patterns_items yields (Path(<configured path>), <its patterns>) for each configured file", "rewrite.iter_path_patterns_items: yielded path is not the configured path", "", loc=ipp.loc())
     # positive control: a stray write must be seen by the effect engine
     tmp = tempfile.mkdtemp(prefix="c04ctl")
     try:
